@@ -15,6 +15,9 @@ Proof.
   destruct H as [->|H]; [apply Nat.le_max_l|]. specialize (IH H). lia.
 Qed.
 
+Lemma guard_safe_const f v : guard_safe f = FConst v -> f = FConst v.
+Proof. destruct f as [w| |]; cbn; try discriminate. destruct (safe_repr w); [auto|discriminate]. Qed.
+
 Lemma of_res_const r v : of_res r = FConst v -> r = Ok v.
 Proof. destruct r as [a|[]]; cbn; intros H; try discriminate. congruence. Qed.
 
@@ -186,14 +189,14 @@ Proof.
     destruct (filter_kind name) as [[]|]; try discriminate;
       (destruct (is_async c && filter_async_variant name); [discriminate|];
        destruct (consts (as_const_n O c m) args) as [vargs| |] eqn:Hc; try discriminate;
-       destruct (as_const_n O c m e) as [va| |] eqn:Ha; try discriminate; apply of_res_const in H;
+       destruct (as_const_n O c m e) as [va| |] eqn:Ha; try discriminate; apply guard_safe_const in H; apply of_res_const in H;
        rewrite (bind_pure _ _ va) by (apply IHx; [auto|lia]);
        rewrite (bind_pure _ _ vargs) by (apply IHl; [auto|lia]);
        unfold lift, ae_now; rewrite Hv, H; reflexivity).
   - destruct (volatile c) eqn:Hv; [discriminate|].
     destruct (negb (test_known name)); [discriminate|].
     destruct (consts (as_const_n O c m) args) as [vargs| |] eqn:Hc; try discriminate.
-    destruct (as_const_n O c m e) as [va| |] eqn:Ha; try discriminate. apply of_res_const in H.
+    destruct (as_const_n O c m e) as [va| |] eqn:Ha; try discriminate. apply guard_safe_const in H. apply of_res_const in H.
     rewrite (bind_pure _ _ va) by (apply IHx; [auto|lia]).
     rewrite (bind_pure _ _ vargs) by (apply IHl; [auto|lia]).
     unfold lift. rewrite H. reflexivity.
@@ -411,6 +414,7 @@ Proof.
   destruct (volatile c) eqn:Hv; [exact Run|].
   destruct (as_const O c e) as [v| |] eqn:Ha; try exact Run.
   pose proof (as_const_sound O c e v Ha n Hd rho) as Hs.
+  destruct (safe_repr v); cbn [negb]; [|exact Run].
   destruct (autoescape c) eqn:Hae.
   - destruct (escape v) as [v'|] eqn:He; [|exact Run].
     destruct (escape_mk v v' He) as [s ->]. cbn [to_str].
